@@ -302,3 +302,78 @@ pub fn replay<W: Write>(out: &mut W, opts: &HashMap<String, String>) {
         emit(out, f[1].parse().unwrap_or(0), &tree, &invs);
     }
 }
+
+// ---------------------------------------------------------------------------------------------
+// Engine `F` (C18): one invocation, a fault injected at the k-th file-system write operation.
+//   F|id|<tree>|<args>|<k>|=>|exit=..;tree=..;op=<kind>:<hexpath>;msg=<0|1>;nops=<n>
+
+fn run_fault_case(tree: &Snap, inv: &[String], k: Option<usize>) -> (String, usize) {
+    let dir = tempfile::Builder::new().prefix("rqf").tempdir_in("/verif/build/tmp").unwrap();
+    let base = dir.path().join("w");
+    std::fs::create_dir(&base).unwrap();
+    materialise(&base, tree);
+    let mut args: Vec<String> = vec!["push".to_string(), "-d".to_string(), base.to_str().unwrap().to_string()];
+    args.extend(inv.iter().cloned());
+    crate::verif::fault_reset(k);
+    let r = std::panic::catch_unwind(|| crate::cmd::run(args.iter()));
+    let (count, failed, _trace) = crate::verif::fault_report();
+    crate::verif::fault_reset(None);
+    let (exit, msg) = match &r {
+        Ok(Ok(true)) => (0, String::new()),
+        Ok(Ok(false)) => (1, String::new()),
+        Ok(Err(e)) => (1, e.iter_chain().map(|c| format!("{}", c)).collect::<Vec<_>>().join(" | ")),
+        Err(_) => (101, String::new()),
+    };
+    let (after, _) = snapshot(&base);
+    let (op, named) = match &failed {
+        None => ("-".to_string(), 1),
+        Some((kind, path)) => {
+            let rel = path.strip_prefix(&base).unwrap_or(path);
+            let name = rel.file_name().map(|n| n.to_string_lossy().into_owned()).unwrap_or_default();
+            // the message must name the file: its name, or for directories the path
+            // (the working directory itself has no name to print: then the message must at least say which file was being saved)
+            let ok = if name.is_empty() { msg.contains("Failed to save") } else { msg.contains(&name) };
+            (format!("{}:{}", kind, hex(rel.as_os_str().as_bytes())), ok as u8)
+        }
+    };
+    (format!("exit={};tree={};op={};msg={}", exit, render_tree(&after), op, named), count)
+}
+
+pub fn run_faults<W: Write>(out: &mut W, seed: u64, n: usize, opts: &HashMap<String, String>) {
+    std::fs::create_dir_all("/verif/build/tmp").unwrap();
+    let per_case: usize = opts.get("perws").and_then(|s| s.parse().ok()).unwrap_or(6);
+    let threads: Vec<usize> = opts.get("threads").map(|s| s.split(',').map(|x| x.parse().unwrap()).collect()).unwrap_or(vec![1]);
+    let mut rng = Rng::new(seed ^ 0xfa17);
+    let mut id = 0;
+    while id < n {
+        let rich = rng.chance(30);
+        let ws = gen_workspace(&mut rng, rich, 3, true);
+        let mut inv = gen_options(&mut rng, &threads);
+        inv.extend(gen_goal(&mut rng, &ws));
+        let (_, nops) = run_fault_case(&ws.tree, &inv, None);
+        if nops == 0 { continue; }
+        // every k if few operations, otherwise a random sample (thorough: perws large enough for all)
+        let ks: Vec<usize> = if nops <= per_case { (0..nops).collect() } else { let mut v: Vec<usize> = (0..per_case).map(|_| rng.below(nops)).collect(); v.sort(); v.dedup(); v };
+        for k in ks {
+            let (res, _) = run_fault_case(&ws.tree, &inv, Some(k));
+            writeln!(out, "F|{}|{}|{}|{}|=>|{};nops={}", id, render_tree(&ws.tree), if inv.is_empty() { "-".to_string() } else { inv.join(" ") }, k, res, nops).unwrap();
+            id += 1;
+        }
+    }
+}
+
+pub fn replay_faults<W: Write>(out: &mut W, opts: &HashMap<String, String>) {
+    std::fs::create_dir_all("/verif/build/tmp").unwrap();
+    let text = std::fs::read_to_string(opts.get("file").expect("file=<path>")).unwrap();
+    for line in text.lines() {
+        let line = line.trim();
+        if !line.starts_with("F|") { continue; }
+        let f: Vec<&str> = line.split('|').collect();
+        let tree = parse_tree(f[2]);
+        let inv: Vec<String> = if f[3] == "-" { vec![] } else { f[3].split(' ').map(|s| s.to_string()).collect() };
+        let k: usize = f[4].parse().unwrap();
+        let (_, nops) = run_fault_case(&tree, &inv, None);
+        let (res, _) = run_fault_case(&tree, &inv, Some(k));
+        writeln!(out, "F|{}|{}|{}|{}|=>|{};nops={}", f[1], f[2], f[3], k, res, nops).unwrap();
+    }
+}
